@@ -7,7 +7,6 @@ import subprocess
 import termios
 import time
 
-import srcprobe
 from vlib import Case
 
 BINARY_PROFILES = ["dev"]
@@ -15,7 +14,7 @@ RULE = ("e2e-file: the REAL p2sh binary (dev profile, working tree) runs generat
         "through a pipe by a writer that hands over one chunk per blocked read (scripted chunk sizes {1, 2, 4095, 4096, 4097, random}); results are printed as hex by the script. "
         "`fwrite`: open(path, mode) on an existing / missing file, a sequence of writes (byte, array, string; below and above the 8 KiB buffer), ending normal / flush / exit / "
         "flush+exit; the file is read back after the process ended. The Lean driver gets the same abstract scenario and prints model (Model/FileRead.lean) ## spec "
-        "(prefix law / documented mode table, Spec/FileIo.lean). non-trivial = at least one call returned data (fread) / the open succeeded (fwrite)")
+        "(prefix law / documented mode table, Spec/FileIo.lean). The model is the code as it is: a reverted repair shows up both as a model disagreement and as an oracle failure. non-trivial = at least one call returned data (fread) / the open succeeded (fwrite)")
 ASSUMPTIONS = ["a regular file read returns min(n, remaining) bytes; a pipe read returns what the writer has written so far, at most n (the reader axioms of Model/FileRead.Conforms)",
                "the pipe writer writes a chunk only once the reader is blocked in read(0) (observed through /proc/<pid>/syscall) and the previous chunk was drained (FIONREAD): "
                "each chunk is then delivered by its own read; without /proc the writer falls back to 20 ms pauses",
@@ -270,37 +269,29 @@ def nontrivial(c):
 
 
 def classify(c):
-    """Narrow class of a violation; the F-numbered classes are only used when the model reproduces the
-    implementation's output (the defect is the modelled one) — anything else gets its own class."""
+    """class of a violation: which call / which mode x target x ending deviates, and how"""
     t = c.line.split(" ")
     if c.impl.startswith(("PANIC", "ABORT", "HANG")):
         return "crash"
-    same = c.impl == c.model
     if t[0] == "fread":
         want = c.spec[6:].split(";") if c.spec.startswith("steps ") else []
         got = c.impl.split(";")
         calls = t[3].split(",")
-        if got and got[-1] == "rterr" and len(got) <= len(calls) and calls[len(got) - 1] == "S" and t[1] == "pipe" and same \
-                and all(w == "-" or w == g for w, g in zip(want, got[:-1])):
-            return "read_to_string(stdin)-invalid-file-handle"
         for i, w in enumerate(want):
             g = got[i] if i < len(got) else None
             if w == "-" or w == g:
                 continue
             call = calls[i] if i < len(calls) else "?"
-            if g == "rterr" and call == "S" and t[1] == "pipe" and same:
-                return "read_to_string(stdin)-invalid-file-handle"
-            if g is not None and g[:2] == w[:2] == "b:" and w.startswith(g) and len(g) < len(w) and same:
-                return "short-read:" + t[1]            # a proper prefix of what was due (F16)
-            return "fread:%s:%s" % (t[1], call[0])
+            if g == "rterr":
+                how = "runtime-error"
+            elif g is not None and g[:2] == w[:2] and w.startswith(g):
+                how = "short"            # a proper prefix of what was due
+            else:
+                how = "other"
+            return "fread:%s:%s:%s" % (t[1], call[0], how)
         return "fread:length"
     if t[0] == "fwrite":
-        mode, ex, ending = t[1], t[2], t[4]
-        if same and mode == "a" and ex == "missing" and c.impl.startswith("open=E"):
-            return "mode-a-missing-not-created"
-        if same and ending == "exit" and c.impl.startswith("open=H"):
-            return "exit-loses-buffered-writes"
-        return "fwrite:%s:%s:%s" % (mode, "missing" if ex == "missing" else "existing", ending)
+        return "fwrite:%s:%s:%s" % (t[1], "missing" if t[2] == "missing" else "existing", t[4])
     return None
 
 
@@ -365,15 +356,6 @@ def schedule(rng, n, kind):
 
 
 def cases(ctx):
-    out = _cases(ctx)
-    fx = srcprobe.token(ctx.repo, ['readloop', 'stdin', 'append', 'exit'])       # which repairs the tree under check contains -> model variant
-    ctx.notes.append("model variant for this tree: " + fx)
-    for c in out:
-        c.line += " " + fx
-    return out
-
-
-def _cases(ctx):
     rng = ctx.rng
     out = []
 
